@@ -90,7 +90,7 @@ Definition run_call (fixed : bool) (c : call) : option result :=
   | CCat ss d => oshape (aten_cat ss d)
   | CStack ss d => oshape (aten_stack ss d)
   | CReduce RSum s ds k => oshape (aten_sum_dim s ds k)
-  | CReduce RAmax s ds k => oshape (aten_amax s (match ds with Some l => l | None => [] end) k)
+  | CReduce RAmax s ds k => oshape (aten_amax s ds k)
   | CReduce RMean s ds k => oshape (aten_mean_dim s (match ds with Some l => l | None => [] end) k)
   | CSelect r d xs i => option_map (fun p => RSlab (fst p) (snd p)) (aten_select r d xs i)
   | CSlice r d xs a b st => oslabs (aten_slice r d xs a b st)
